@@ -257,6 +257,27 @@ fn strip_pos(item: &str) -> String {
     if t.first() == Some(&"err") && t.len() >= 2 { format!("err {}", t[1]) } else { item.to_string() }
 }
 
+/// The text with every Emacs Lisp numeric escape (`\x` + hex digits, `\` + octal digits) whose value is 0x80..0xFF
+/// replaced by the byte it denotes (other escapes, `\\` included, are copied).
+fn inline_byte_escapes(data: &[u8]) -> Vec<u8> {
+    let mut out = Vec::with_capacity(data.len());
+    let mut i = 0;
+    while i < data.len() {
+        if data[i] == b'\\' && i + 1 < data.len() {
+            let c = data[i + 1];
+            let (start, radix) = if c == b'x' { (i + 2, 16) } else if (b'0'..=b'7').contains(&c) { (i + 1, 8) } else { (0, 0) };
+            if radix != 0 {
+                let mut j = start; let mut v: u32 = 0;
+                while j < data.len() && (data[j] as char).to_digit(radix).is_some() && v < 0x10000 { v = v * radix + (data[j] as char).to_digit(radix).unwrap(); j += 1; }
+                if j > start && (0x80..=0xFF).contains(&v) { out.push(v as u8); i = j; continue; }
+            }
+            out.push(data[i]); out.push(c); i += 2; continue;
+        }
+        out.push(data[i]); i += 1;
+    }
+    out
+}
+
 fn strip_dat(item: &str) -> String {
     // "dat <value> @ <info>" -> "val <value>"
     if let Some(rest) = item.strip_prefix("dat ") {
@@ -846,7 +867,11 @@ fn check_inner(line: &str, res: &str, t: &[&str], mut m: Vec<String>) -> Vec<Str
             if src != "s" && std::str::from_utf8(&data).is_err() && !data.contains(&b';') && !items.is_empty()
                 && (items.last() == Some(&"none") || api == "v1" || api == "d1")      // the whole input was read
                 && items.iter().all(|i| i.starts_with("val ") || i.starts_with("dat ") || *i == "none") && !res.contains(" X") && !res.contains(" B") {
-                m.push(format!("FAIL C17 input that is not valid UTF-8 was accepted without an error: {}", res.chars().take(120).collect::<String>()));
+                // one recorded class has its own tag: under the Emacs Lisp string syntax a numeric escape \xHH / \ooo with a
+                // value of 0x80..0xFF pushes that byte, which can complete an ill-formed sequence next to it; recognised
+                // by the input being valid UTF-8 once those escapes are replaced by the bytes they denote
+                let class = if ro.as_bytes()[6] == b'1' && std::str::from_utf8(&inline_byte_escapes(&data)).is_ok() { "[numeric escape completes a sequence] " } else { "" };
+                m.push(format!("FAIL C17 {}input that is not valid UTF-8 was accepted without an error: {}", class, res.chars().take(120).collect::<String>()));
             }
             for it in &items {
                 let body = if let Some(b) = it.strip_prefix("val ") { Some(b.to_string()) } else if it.starts_with("dat ") { Some(strip_dat(it)[4..].to_string()) } else { None };
